@@ -36,6 +36,55 @@ type (
 	}
 )
 
+// wrapSpecAsserts lets assert(...) / assume(...) in a hook body carry a full
+// spec expression (==>, forall, exists): the expression is hidden from the Go
+// parser inside __spec("...") and parsed by parseSpec when the hook runs.
+func wrapSpecAsserts(line string) string {
+	for _, kw := range []string{"assert(", "assume("} {
+		i := strings.Index(line, kw)
+		if i < 0 {
+			continue
+		}
+		start := i + len(kw)
+		depth, j, inStr := 1, start, false
+		for ; j < len(line) && depth > 0; j++ {
+			ch := line[j]
+			switch {
+			case inStr:
+				if ch == '\\' {
+					j++
+				} else if ch == '"' {
+					inStr = false
+				}
+			case ch == '"':
+				inStr = true
+			case ch == '(':
+				depth++
+			case ch == ')':
+				depth--
+			}
+		}
+		if depth != 0 {
+			return line
+		}
+		inner := line[start : j-1]
+		label, expr := "", inner
+		if t := strings.TrimLeft(inner, " "); strings.HasPrefix(t, "\"") {
+			if k := strings.Index(t[1:], "\""); k >= 0 {
+				rest := strings.TrimLeft(t[k+2:], " ")
+				if strings.HasPrefix(rest, ",") {
+					label, expr = t[:k+2]+", ", rest[1:]
+				}
+			}
+		}
+		if !hasSpecial(expr) {
+			return line
+		}
+		return line[:start] + label + "__spec(" + strconv.Quote(strings.TrimSpace(expr)) + ")" + line[j-1:]
+	}
+	return line
+}
+
 func hasSpecial(s string) bool {
 	return strings.Contains(s, "==>") || containsWord(s, "forall") || containsWord(s, "exists")
 }
@@ -419,6 +468,9 @@ func (cs *ContractSet) parseContractFile(path, pkgPath string) error {
 	flushHook := func() error {
 		if curHook == nil {
 			return nil
+		}
+		for i := range hookSrc {
+			hookSrc[i] = wrapSpecAsserts(hookSrc[i])
 		}
 		src := "package p\nfunc _() {\n" + strings.Join(hookSrc, "\n") + "\n}"
 		fs := token.NewFileSet()
